@@ -29,6 +29,20 @@ class PdRecord:
     def _pyvc_getattr(self, it, name):
         if name == "to_dict":
             return Handler(lambda it_: dict(self.d), "Series.to_dict")
+        if name == "to_frame":
+            rec = self
+
+            class _ColumnFrame:
+                """record.to_frame(): one column whose rows are the record's fields; only .T is modelled."""
+
+                _pyvc_symbolic = True
+
+                def _pyvc_getattr(self_, it_, n):
+                    if n == "T":
+                        return SFrame({k: [v] for k, v in rec.d.items()}, [0])
+                    raise Undecided(f"Series.to_frame().{n}")
+
+            return Handler(lambda it_, *a, **k: _ColumnFrame(), "Series.to_frame")
         if name in self.d:
             return self.d[name]
         raise Undecided(f"pd.Series.{name} on a record model")
@@ -503,6 +517,8 @@ class SFrame:
             return _ILoc(self)
         if name == "loc":
             return _Loc(self)
+        if name == "at":
+            return _At(self)
         if name == "empty":
             return self.n == 0 or not self.cols
         if name == "copy":
@@ -750,6 +766,38 @@ class _Loc:
                 for k in rows:
                     col[k] = v
                 f.cols[cn] = col
+
+
+class _At:
+    """df.at[label, column]: a single cell addressed by ROW LABEL."""
+
+    _pyvc_symbolic = True
+
+    def __init__(self, f):
+        self.f = f
+
+    def _row(self, it, label):
+        for k, lk in enumerate(self.f.labels):
+            if lk is label or it.ctx.decide(it.truthy(it.equals(lk, label)), "at-label"):
+                return k
+        raise PyRaise(KeyError, (label,))
+
+    def _pyvc_getitem(self, it, idx):
+        r, c = idx
+        c = it.concrete_key(c)
+        if c not in self.f.cols:
+            raise PyRaise(KeyError, (c,))
+        return self.f.cols[c][self._row(it, r)]
+
+    def _pyvc_setitem(self, it, idx, v):
+        r, c = idx
+        c = it.concrete_key(c)
+        k = self._row(it, r)
+        if c not in self.f.cols:
+            self.f.cols[c] = [NAN] * self.f.n
+        col = list(self.f.cols[c])
+        col[k] = v
+        self.f.cols[c] = col
 
 
 def _aligned(it, labels, vals, want):
